@@ -288,6 +288,21 @@ Theorem C15_fit_bisect_delivers_partial : forall fuel E (n : nat) V T cap init n
 Proof. exact fit_bisect_delivers. Qed.
 Print Assumptions C15_fit_bisect_delivers_partial.
 
+(* THE LAST SENTENCE OF THE PROPERTY, for whatever batt_cap_fn returns (either branch, any
+   recursion depth, any ladder step): charging the fitted battery at full rate for the n periods of
+   the stay delivers the requested energy — exactly in the closed-form branch (C15_fit_closed_form),
+   and within 2e-9 * capacity in general (the bisection stops at |delta_soc - target| < 1e-9).
+   Hypothesis max_dsoc * n >= 0.001: at full rate the stay moves the SoC by at least 0.1 %
+   (used only when the bisection stops above the transition SoC). *)
+Theorem C15_fit_delivers : forall fuel E (n : nat) V T cap init noise,
+  0 < V -> 0 < T -> 0 <= E -> (0 < n)%nat ->
+  batt_cap_fn_R fuel E (INR n) V T = FitOkR cap init ->
+  1/1000 <= Fit_max_dsoc T V cap * INR n ->
+  Rabs (l2_run_R n cap (fit_max_power_R V) Fit_transition_soc Fit_max_rate V T noise init - init - E)
+  < 2 * tol9 * cap.
+Proof. exact batt_cap_fn_delivers. Qed.
+Print Assumptions C15_fit_delivers.
+
 (* the battery returned by batt_cap_fn holds the request.
    _partial: `init + E <= cap` exactly holds in the closed-form branch (C15_fit_closed_form); in the
    bisection branch only up to the bisection tolerance 1e-9 * cap, which is what is stated. *)
@@ -324,5 +339,12 @@ Print Assumptions C15_fit_rejects_only_infeasible.
 Example C15_fit_closed_form_example :
   closed_form_test 1 (INR 64) 208 5 8 = true.
 Proof. exact closed_form_example. Qed.
+
+(* ... and those of C15_fit_bisect / C15_fit_bisect_64: 6 kWh in 12 five-minute periods *)
+Example C15_fit_bisect_example :
+  closed_form_test 6 (INR 12) 208 5 8 = false /\
+  6 / 8 <= Fit_delta_from (Fit_max_dsoc 5 208 8) (INR 12) Fit_transition_soc 0 /\
+  Fit_max_dsoc 5 208 8 * INR 12 <= 1000000000.
+Proof. exact bisect_example. Qed.
 
 End Fit.
